@@ -136,6 +136,11 @@ func (env *ExecEnv) expand(word ast.Word, mode ExpMode) (fields []*field, err er
 				}
 				fields[len(fields)-1].join(s, true)
 			case `"`:
+				if env.noFields(w.Value) {
+					// "$@" generates zero fields if there are no
+					// positional parameters
+					break
+				}
 				word, err := env.expand(w.Value, mode&Arith|Quote)
 				if err != nil {
 					return nil, err
@@ -170,6 +175,20 @@ func (env *ExecEnv) expand(word ast.Word, mode ExpMode) (fields []*field, err er
 }
 
 // expandTilde performs tilde expansion.
+// noFields reports whether the word in double-quotes consists of
+// nothing but $@, and there are no positional parameters.
+func (env *ExecEnv) noFields(word ast.Word) bool {
+	if len(word) == 0 || len(env.Args) > 1 {
+		return false
+	}
+	for _, w := range word {
+		if pe, ok := w.(*ast.ParamExp); !ok || pe.Name == nil || pe.Name.Value != "@" || pe.Op != "" {
+			return false
+		}
+	}
+	return true
+}
+
 func (env *ExecEnv) expandTilde(f *field, s string, word ast.Word, mode ExpMode) (off, col int) {
 	if mode&(Arith|Quote) != 0 || !strings.HasPrefix(s, "~") {
 		return
